@@ -97,6 +97,9 @@ class Device(nfc.clf.device.Device):
 
         log.debug("rcvd SENS_RES %s", hexlify(sens_res).decode())
 
+        if len(sens_res) != 2:
+            return None
+
         if sens_res[0] & 0x1F == 0:
             log.debug("type 1 tag target found")
             target = nfc.clf.RemoteTarget(target.brty, _addr=addr)
